@@ -83,6 +83,17 @@ def check(case):
             # carboxyl name exchange: an oxygen "not in the input" may be the supplied one under the
             # other name - added atoms are those whose POSITION was not supplied
             added = [k for k in added if not any(float(np.linalg.norm(out[k] - v)) < 1e-3 for v in names.values())]
+            # ... and when the side chain was turned afterwards, the supplied oxygen is recognised by its
+            # (rigidly preserved) distance to the carboxyl carbon
+            for o1, o2, c_ in (("OD1", "OD2", "CG"), ("OE1", "OE2", "CD")):
+                for o_in, o_other in ((o1, o2), (o2, o1)):
+                    if o_in in names and o_other not in names and c_ in names and o_other in added and all(k in out for k in (o1, o2, c_)):
+                        l_in = geom.dist(names[o_in], names[c_])
+                        if abs(geom.dist(out[o_other], out[c_]) - l_in) < 2e-3 and abs(geom.dist(out[o_in], out[c_]) - l_in) > 2e-3:
+                            # the atom now called o_other IS the supplied oxygen; the one called o_in was built
+                            added = [k for k in added if k != o_other] + [o_in]
+                            names = dict(names)
+                            names[o_other] = names.pop(o_in)
         if g[0] == "water":
             if {"H1", "H2"} <= set(out) and "O" in out:
                 n_polar += 1
@@ -147,6 +158,8 @@ def check(case):
             elif x in POLAR_H:
                 n_polar += 1
             for p in bonds.get(x, []):
+                if topo.heavy(x) and not topo.heavy(p):
+                    continue  # a bond to a hydrogen is checked from the hydrogen's side (x = H, p = its parent)
                 if p not in out or p not in tmpl:
                     continue
                 d = geom.dist(out[x], out[p])
